@@ -16,7 +16,7 @@ from realcode import RefLoop
 
 OBLIGATIONS = [
     'Cvise.C02.round_par_eq_seq', 'Cvise.C02.seq_first_is_first', 'Cvise.C02.round_no_skip',
-    'Cvise.C02.round_winner_eq_seq', 'Cvise.C02.reduce_schedule_irrelevant',
+    'Cvise.C02.round_winner_eq_seq', 'Cvise.C02.reduce_schedule_irrelevant', 'Cvise.C02.accepted_sequence_schedule_irrelevant',
     'Cvise.D.roundLoop_sim', 'Cvise.D.check_tame', 'Cvise.D.fileLoop_schedule_irrelevant',
 ]
 
@@ -139,7 +139,34 @@ def text_pass_runs(ctx, n):
     return done
 
 
+def real_pool_part(ctx):
+    """real pebble pool, real processes: a slow-but-interesting earlier candidate against a fast later one, N = 1 vs 2, 3, 4"""
+    import worldlib as W
+    from concurrent.futures import ThreadPoolExecutor
+    ns = [1, 2, 3, 4] if ctx.tier != 'quick' else [1, 2, 3]
+    scens = [W.scen_order(ctx.rng, n) for n in ns]
+    with ThreadPoolExecutor(max_workers=4) as ex:
+        obs = list(ex.map(lambda sc: W.run(ctx, sc), scens))
+    ref = None
+    for sc, ob in zip(scens, obs):
+        ctx.count()
+        seq = [c[2] for c in ob.get('commits', [])]
+        fin = ob.get('after', {}).get('a.c')
+        if ob['outcome'] != 'ok':
+            ctx.report('parallel-run-raises', f"{sc['name']}: {ob['outcome']}", {'kind': 'real-order', 'scenario': sc})
+            continue
+        if sc['N'] == 1:
+            ref = (seq, fin)
+        elif ref is not None and (seq, fin) != ref:
+            ctx.report('real-pool-result-depends-on-parallelism', f"{sc['name']}: accepted {len(seq)} steps, final differs from the N=1 run", {'kind': 'real-order', 'scenario': sc})
+        if seq:
+            ctx.nontrivial(('real-order', sc['N']))
+
+
 def replay(ctx, obj):
+    if obj.get('kind') == 'real-order':
+        real_pool_part(ctx)
+        return
     if obj.get('kind') == 'textpass':
         tag, dens = obj['pred']
 
@@ -170,6 +197,7 @@ def run(ctx):
     n_ex = all_schedules_round(ctx, diffs, 2 if quick else 3)
     rows = D.sweep(ctx, contract_scens(ctx, 250 if quick else 4000), [oracle], diffs, nontriv)
     n_tp = text_pass_runs(ctx, 120 if quick else 1500)
+    real_pool_part(ctx)
     ctx.sample({'scenario_key': D.scen_key(rows[1][0]), 'N': rows[1][0]['N'], 'played': rows[1][1]['played'], 'observed': rows[1][2]})
 
     def search(budget):
